@@ -2,6 +2,8 @@
    table  := "-" | hosthex=fam:addrhex,fam:addrhex;hosthex=...
    SUB shex table   -> G <host|NONE> <cidr> <fport> <lport> | OK fam,addrhex,width,fphex,lphex;... | RAISE <cls> | A OK|USAGE|CRASH:<cls> | <result of the code as found, before F23>
    IPP shex table   -> G <host|NONE> <port> | OK fam addrhex port | RAISE <cls>
+   LISTEN shex|N dis table -> OK <v6> <v4> | RAISE <cls>   (cmdline.main's --listen dispatch; dis 0/1 = --disable-ipv6;
+                       a slot is AUTO | NONE | addrhex:port)
    HP shex          -> OK user pass port host | RAISE <cls>          (N = None)
    ATON shex        -> valuehex dottedhex | NONE
    V6 shex          -> w0.w1...w7 glibchex pyhex | NONE
@@ -72,6 +74,13 @@ let handle = function
       | Ok ((fam, a), p) -> Printf.sprintf "OK %d %s %d" (int_of_n fam) (hex_of_bytes a) (int_of_n p)
       | Raise e -> "RAISE " ^ exn_str e) in
     g ^ " | " ^ r ^ " | " ^ out_str (parse_ipport rs b)
+  | ["LISTEN"; s; dis; tbl] ->
+    let rs = tbl_lookup (parse_table tbl) in
+    let slot = function LAuto -> "AUTO" | LNone -> "NONE"
+      | LAddr (ip, port) -> Printf.sprintf "%s:%d" (hex_of_bytes ip) (int_of_n port) in
+    (match listen_dispatch rs (if s = "N" then None else Some (bytes_of_hex s)) (dis = "1") with
+     | Ok (v6, v4) -> Printf.sprintf "OK %s %s" (slot v6) (slot v4)
+     | Raise e -> "RAISE " ^ exn_str e)
   | ["HP"; s] ->
     (match parse_hostport (bytes_of_hex s) with
      | Ok (((u, pw), port), h) -> Printf.sprintf "OK %s %s %s %s" (ob u) (ob pw) (on port) (ob h)
